@@ -97,6 +97,9 @@ func devSizes(lss int) []int64 {
 		(1 << 41) - l, 1 << 41, (1 << 41) + l, // 2 TiB +- 1 sector
 		3 << 40,
 		(1<<32)*l - l, (1 << 32) * l, (1<<32)*l + l, // 2^32 sectors +- 1
+		// devices that are not a whole number of logical sectors (image files of any length; 512-byte
+		// multiples on 4096-byte sectors): the last sector is floor(size/lss)-1
+		1<<20 + 300, 64<<20 + l - 512 + 212, 8<<20 + l/2, 1<<41 + l - 1,
 	}
 }
 
